@@ -18,6 +18,7 @@ package jsonrpc
 //@ property C16 units: WithReverseClient$1$1, ExtractReverseClient, (*RPCServer).handleWS, (*RPCServer).ServeHTTP, (*client).setupRequestChan$1, (*wsConn).handleChanOut, websocketClient, WithClientHandlerAlias$1, (*wsConn).closeInFlight, (*wsConn).handleWsConn
 //@ property C07 units: (*wsConn).handleOutChans, (*wsConn).handleOutChans$1, (*wsConn).handleChanOut, (*handler).handle, (*wsConn).handleResponse, (*wsConn).handleChanMessage, (*client).makeOutChan$1$1, (*client).makeOutChan$1$2, (*wsConn).handleFrame
 //@ property C08 units: (*wsConn).handleOutChans, (*wsConn).handleChanClose, (*wsConn).closeChans, (*wsConn).handleChanMessage, (*wsConn).tryReconnect, (*wsConn).handleWsConn, (*client).makeOutChan$1$1, (*client).makeOutChan$1$2, (*wsConn).handleResponse
+//@ property C11 units: (*handler).createError, (*Errors).Register, NewErrors, (*JSONRPCError).val, (*JSONRPCError).Error, (*rpcFunc).processResponse, (*rpcFunc).processError, (*handler).handle, (response).MarshalJSON, processFuncOut, (*wsConn).handleResponse
 //@ property C13 units: doCall, (*handler).handle, rpcError$1
 
 //@ -- ------------------------------------------------------------------ shared vocabulary
@@ -27,7 +28,7 @@ package jsonrpc
 //@ axiom error-typed-values: forall v: U :: rtypeOf(v) == errorType ==> (ifaceOf(v) == nil || istype(ifaceOf(v), #error))
 //@ axiom codec-typed-values: forall v: U :: rImplements(rtypeOf(v), errorCodecRT) ==> istype(ifaceOf(v), #RPCErrorCodec)
 //@ axiom marshalable-typed-values: forall v: U :: rImplements(rtypeOf(v), marshalableRT) ==> istype(ifaceOf(v), #marshalable)
-//@ pred wfRpcFunc(fn) := fn.client != nil && fn.nout >= 0 && (fn.valOut == -1 || (0 <= fn.valOut && fn.valOut < fn.nout)) && (fn.errOut == -1 || (0 <= fn.errOut && fn.errOut < fn.nout)) && (fn.hasCtx == 0 || fn.hasCtx == 1)
+//@ pred wfRpcFunc(fn) := fn.client != nil && fn.nout >= 0 && (fn.valOut == -1 || (0 <= fn.valOut && fn.valOut < fn.nout)) && (fn.errOut == -1 || (0 <= fn.errOut && fn.errOut < fn.nout)) && (fn.hasCtx == 0 || fn.hasCtx == 1) && fn.nout == NumOut(fn.ftyp) && (fn.valOut == -1 || fn.errOut == -1 || fn.valOut != fn.errOut)
 
 //@ -- output automaton of an HTTP reply: 0 empty, 1 one value, 2 '[' written, 3 array ends with a value, 4 array ends with ',', 5 closed, 9 malformed
 //@ pred tokOf(b) := ite(isbytes(b, "["), 1, ite(isbytes(b, ","), 2, ite(isbytes(b, "]"), 3, 0)))
@@ -379,6 +380,8 @@ package jsonrpc
 //@   at call dyn:rpcError: assert error-reply-names-request: $1 != nil && $1.ID == req.ID && $0 == w [C09,C02]
 //@   at call withLazyWriter: assert reply-echoes-id-and-version: resp.ID == req.ID && resp.Jsonrpc == "2.0" && $0 == w [C09,C02]
 //@   at call withLazyWriter: assert reply-only-for-id-bearing: req.ID != nil [C09,C04]
+//@   at call withLazyWriter: assert error-reply-carries-no-result: resp.Error != nil ==> resp.Result == nil [C11,C09]
+//@   at call createError: assert error-built-from-the-handlers-error-output: calls(doCall) == 1 && handler.errOut != -1 [C11]
 //@   at call doCall: assert dispatches-selected-handler: $1 == selected(s, req.Method).handlerFunc && $0 == req.Method && resolvable(s, req.Method) [C12,C01]
 //@   at call doCall: assert arity-checked-before-call: handler.hasRawParams || (defined(ps) && len(ps) == handler.nParams) [C12,C09]
 //@   at call doCall: assert nothing-rejected-before-call: calls(rpcError) == 0 && calls(doCall) == 0 [C12,C04,C09]
@@ -424,6 +427,27 @@ package jsonrpc
 //@   requires err != nil
 //@   ensures result != nil [C11,C10]
 //@   nopanic [C10]
+//@   ghost msg : U = nil
+//@   ghost dynT : U = nil
+//@   ghost convErr : U = nil
+//@   ghost convTried : Bool = false
+//@   ghost marshalErr : U = nil
+//@   ghost marshalTried : Bool = false
+//@   at ret (error).Error: set msg = $result0
+//@   at call (error).Error: assert message-from-the-handlers-error: $0 == old(err) [C11]
+//@   at ret reflect.TypeOf: set dynT = $result0
+//@   at call reflect.TypeOf: assert code-looked-up-by-dynamic-type: $0 == old(err) [C11]
+//@   at maplookup Errors.byType: assert code-looked-up-by-dynamic-type: $key == dynT [C11]
+//@   at ret (RPCErrorCodec).ToJSONRPCError: set convErr = $result1
+//@   at ret (RPCErrorCodec).ToJSONRPCError: set convTried = true
+//@   at ret (RPCErrorCodec).ToJSONRPCError: let conv = $result0
+//@   at ret (marshalable).MarshalJSON: set marshalErr = $result1
+//@   at ret (marshalable).MarshalJSON: set marshalTried = true
+//@   at ret (marshalable).MarshalJSON: let meta = $result0
+//@   ensures codec-output-used-when-conversion-succeeds: convTried && convErr == nil ==> result.Code == conv.Code && result.Message == conv.Message && result.Data == conv.Data && result.Meta == conv.Meta [C11]
+//@   ensures generic-error-keeps-code-and-message: !(convTried && convErr == nil) ==> result.Message == msg && result.Code == ite(s.errors != nil && present(s.errors.byType, dynT), s.errors.byType[dynT], 1) && result.Data == nil [C11]
+//@   ensures marshalled-meta-attached: marshalTried && marshalErr == nil ==> result.Meta == meta [C11]
+//@   ensures no-meta-otherwise: !convTried && !(marshalTried && marshalErr == nil) ==> len(result.Meta) == 0 [C11]
 
 //@ func (*handler).getSpan
 //@   modifies nothing
@@ -439,9 +463,24 @@ package jsonrpc
 //@ func (*JSONRPCError).val
 //@   modifies nothing
 //@   nopanic [C10]
+//@   ghost failed : Bool = false
+//@   ghost built : U = nil
+//@   at maplookup Errors.byCode: assert registered-type-looked-up-by-code: $key == e.Code [C11,C05]
+//@   at maplookup Errors.byCode: let rtype = $val
+//@   at call reflect.New: assert builds-a-value-of-the-registered-type: $0 == ite(KindOf(rtype) == 22, ElemT(rtype), rtype) [C11]
+//@   at ret reflect.New: set built = $result0
+//@   at ret (RPCErrorCodec).FromJSONRPCError: set failed = failed || $result0 != nil
+//@   at call (marshalable).UnmarshalJSON: assert meta-handed-to-the-registered-type: $1 == e.Meta && len(e.Meta) > 0 [C11]
+//@   at ret (marshalable).UnmarshalJSON: set failed = failed || $result0 != nil
+//@   ensures failed-conversion-degrades-to-the-generic-error: failed ==> result == valueOf(box(e)) [C11]
+//@   ensures unregistered-code-stays-generic: (errors == nil || !present(errors.byCode, e.Code)) ==> result == valueOf(box(e)) [C11]
+//@   ensures registered-form-pointer-or-value: !failed && errors != nil && present(errors.byCode, e.Code) ==> result == ite(KindOf(errors.byCode[e.Code]) == 22, built, elemOf(built)) [C11]
 
 //@ func (*rpcFunc).processResponse
 //@   modifies nothing
+//@   at call (reflect.Value).Set: assert error-output-only-for-error-responses: resp.Error != nil && calls(val) == 1 [C11]
+//@   ensures error-output-set-iff-response-has-error: fn.errOut != -1 ==> (calls(Set) == 1) == (resp.Error != nil) [C11]
+//@   ensures outputs-sized-and-value-in-place: len(result) == fn.nout && (fn.valOut != -1 ==> result[fn.valOut] == rval) [C11,C01]
 //@   requires descriptor-wellformed: wfRpcFunc(fn) [C01,C11,C10]
 //@   nopanic [C10]
 
@@ -636,3 +675,27 @@ package jsonrpc
 //@   at call (reflect.Value).Close: assert closes-only-when-cancelled-or-drained: chosen == 0 || (incoming == nil && listlen(buf) == 0) [C07,C08]
 //@   loop 1 invariant never-idle-with-stream-ended-and-drained: !(incoming == nil && listlen(buf) == 0) && listlen(buf) >= 0 [C08]
 //@   ensures closes-exactly-once-before-exit: calls(Close) == 1 [C08]
+
+//@ func (*Errors).Register
+//@   may_panic
+//@   requires e.byType != nil && e.byCode != nil
+//@   ghost nType : Int = 0
+//@   ghost nCode : Int = 0
+//@   at ret (reflect.Type).Elem: let rt = $result0
+//@   at mapset Errors.byType: assert type-registered-exactly-as-given: $key == rt && $val == c [C11]
+//@   at mapset Errors.byType: inc nType
+//@   at mapset Errors.byCode: assert code-maps-back-to-that-type: $key == c && $val == rt [C11]
+//@   at mapset Errors.byCode: inc nCode
+//@   ensures exactly-one-entry-each-way: nType == 1 && nCode == 1 [C11]
+
+//@ func NewErrors
+//@   at mapset: assert connection-error-code-preregistered: $key == -1111111 [C05,C11]
+
+//@ func (*rpcFunc).processError
+//@   requires wfRpcFunc(fn)
+//@   ensures outputs-sized: len(result) == fn.nout [C11,C01]
+//@   at call reflect.ValueOf: assert wraps-the-transport-error: unbox($0, #*ErrClient).err == err [C11]
+
+//@ func (*JSONRPCError).Error
+//@   modifies nothing
+//@   ensures user-codes-give-message-verbatim: !(e.Code >= -32768 && e.Code <= -32000) ==> result == e.Message [C11]
